@@ -882,8 +882,11 @@ Fixpoint size (e : ex) : nat :=
   | EInt _ | EDbl _ _ _ => 0 | ECount k => 3 + gsize (k_guard k) + agg_nifs (k_agg k)
   | EBin _ a b | EDiv a b => size a + size b | EIdx _ _ _ => 1 | ENeg a | EFun _ a => size a
   | EBool _ a b => S (size a + size b)
+  | EIf c a b => S (size c + size a + size b)
   end.
 Definition ebo_name (n : nat) : string := nm "bool_op" n.
+Definition eif_name (n : nat) : string := nm "if_else_result" n.
+Definition arm_cast (a : ex) : option string := if String.eqb (ex_type a) "double" then None else Some "double".
 Definition idx_cv (c : collref) (n : nat) : string := nm (c_base c) n.
 Fixpoint tds (e : ex) (n : nat) : list decl :=
   match e with
@@ -891,6 +894,7 @@ Fixpoint tds (e : ex) (n : nat) : list decl :=
   | EIdx c _ _ => [{| d_type := c_ctype c; d_name := idx_cv c n; d_init := None |}]
   | EDbl _ _ _ => [] | EDiv a b => tds a n ++ tds b (n + size a) | ENeg a | EFun _ a => tds a n
   | EBool _ a _ => bo_decl (ebo_name n) :: tds a (S n)
+  | EIf c _ _ => ie_decl (eif_name n) :: tds c (S n)
   end.
 Definition idx_exp (c : collref) (i : nat) (m : string) (n : nat) : cexp :=
   CMeth (CMeth (CVar (idx_cv c n)) true "at" (CCons (CInt (Z.of_nat i)) CNil)) (c_arrow c) m CNil.
@@ -904,6 +908,7 @@ Fixpoint tc (e : ex) (n : nat) : cexp :=
   | ENeg a => CUn "-" (tc a n)
   | EFun f a => CCall f (CCons (tc a n) CNil)
   | EBool _ _ _ => CVar (ebo_name n)
+  | EIf _ _ _ => CVar (eif_name n)
   end.
 Fixpoint tss (idiom : string) (e : ex) (n : nat) : stmts :=
   match e with
@@ -914,10 +919,16 @@ Fixpoint tss (idiom : string) (e : ex) (n : nat) : stmts :=
   | EBool is_and a b =>
       bo_lower is_and (ebo_name n) (tss idiom a (S n)) (tc a (S n))
                [bo_operand (ebo_name n) (tds b (S n + size a)) (tss idiom b (S n + size a)) (tc b (S n + size a))]
+  | EIf c a b =>
+      snoc_stmts (tss idiom c (S n))
+        (SIf (tc c (S n))
+             (Blk (tds a (S n + size c)) (snoc_stmts (tss idiom a (S n + size c)) (SSet (eif_name n) (arm_cast a) (tc a (S n + size c)))))
+             (Some (Blk (tds b (S n + size c + size a))
+                        (snoc_stmts (tss idiom b (S n + size c + size a)) (SSet (eif_name n) (arm_cast b) (tc b (S n + size c + size a)))))))
   end.
 Lemma te_split (idiom : string) (e : ex) : forall n, te idiom e n = (tds e n, tss idiom e n, tc e n, n + size e).
 Proof.
-  induction e as [z|k|o a IHa b IHb|c i m|t z0 d0|a IHa b IHb|a IHa|fn a IHa|ia a IHa b IHb]; intro n; cbn [te tds tss tc size].
+  induction e as [z|k|o a IHa b IHb|c i m|t z0 d0|a IHa b IHb|a IHa|fn a IHa|ia a IHa b IHb|c0 IHc a IHa b IHb]; intro n; cbn [te tds tss tc size].
   - rewrite Nat.add_0_r. reflexivity.
   - replace (n + (3 + gsize (k_guard k) + agg_nifs (k_agg k))) with (S (S (S n)) + gsize (k_guard k) + agg_nifs (k_agg k)) by lia. reflexivity.
   - rewrite IHa, IHb. rewrite Nat.add_assoc. reflexivity.
@@ -927,6 +938,8 @@ Proof.
   - rewrite IHa. reflexivity.
   - rewrite IHa. reflexivity.
   - rewrite IHa, IHb. unfold ebo_name. replace (n + S (size a + size b)) with (S n + size a + size b) by lia. reflexivity.
+  - rewrite IHc, IHa, IHb. unfold eif_name, arm_cast.
+    replace (n + S (size c0 + size a + size b)) with (S n + size c0 + size a + size b) by lia. reflexivity.
 Qed.
 
 Fixpoint vars (e : ex) (n : nat) : list string :=
@@ -936,6 +949,7 @@ Fixpoint vars (e : ex) (n : nat) : list string :=
   | EIdx c _ _ => [idx_cv c n]
   | EDbl _ _ _ => [] | EDiv a b => vars a n ++ vars b (n + size a) | ENeg a | EFun _ a => vars a n
   | EBool _ a b => ebo_name n :: vars a (S n) ++ vars b (S n + size a)    (* incl. the names declared inside the if block *)
+  | EIf c a b => eif_name n :: vars c (S n) ++ vars a (S n + size c) ++ vars b (S n + size c + size a)
   end.
 (* the names declared in the block the expression is translated into (those of vars without the ones inside if blocks) *)
 Fixpoint bvars (e : ex) (n : nat) : list string :=
@@ -945,18 +959,20 @@ Fixpoint bvars (e : ex) (n : nat) : list string :=
   | EIdx c _ _ => [idx_cv c n]
   | ENeg a | EFun _ a => bvars a n
   | EBool _ a _ => ebo_name n :: bvars a (S n)
+  | EIf c _ _ => eif_name n :: bvars c (S n)
   end.
 Fixpoint bases_ok (e : ex) : bool :=
   match e with
   | EInt _ => true | ECount k => base_ok (c_base (k_coll k)) | EBin _ a b => bases_ok a && bases_ok b
   | EIdx c _ _ => base_ok (c_base c)
   | EDbl _ _ _ => true | EDiv a b | EBool _ a b => bases_ok a && bases_ok b | ENeg a | EFun _ a => bases_ok a
+  | EIf c a b => bases_ok c && bases_ok a && bases_ok b
   end.
 
 Lemma vars_shape (e : ex) : forall n x, bases_ok e = true -> In x (vars e n) ->
   exists b i, x = nm b i /\ last_digit b = false /\ first_not_underscore b = true /\ n <= i < n + size e.
 Proof.
-  induction e as [z|k|o a IHa b IHb|c i0 m|t z0 d0|a IHa b IHb|a IHa|fn a IHa|ia a IHa b IHb]; intros n x Hb Hin; cbn [vars size bases_ok] in *.
+  induction e as [z|k|o a IHa b IHb|c i0 m|t z0 d0|a IHa b IHb|a IHa|fn a IHa|ia a IHa b IHb|c0 IHc a IHa b IHb]; intros n x Hb Hin; cbn [vars size bases_ok] in *.
   - destruct Hin.
   - unfold base_ok in Hb. apply andb_prop in Hb as [H1 H2]. apply negb_true_iff in H1.
     destruct Hin as [<-|[<-|[]]].
@@ -978,14 +994,21 @@ Proof.
     + apply in_app_or in Hin as [Hin|Hin].
       * destruct (IHa _ x Ha Hin) as (bb & i & E & L & F & R). exists bb, i. repeat split; auto; lia.
       * destruct (IHb _ x Hb' Hin) as (bb & i & E & L & F & R). exists bb, i. repeat split; auto; lia.
+  - apply andb_prop in Hb as [Hb Hb3]. apply andb_prop in Hb as [Hb1 Hb2]. destruct Hin as [<-|Hin].
+    + exists "if_else_result", n. repeat split; auto; lia.
+    + apply in_app_or in Hin as [Hin|Hin]; [|apply in_app_or in Hin as [Hin|Hin]].
+      * destruct (IHc _ x Hb1 Hin) as (bb & i & E & L & F & R). exists bb, i. repeat split; auto; lia.
+      * destruct (IHa _ x Hb2 Hin) as (bb & i & E & L & F & R). exists bb, i. repeat split; auto; lia.
+      * destruct (IHb _ x Hb3 Hin) as (bb & i & E & L & F & R). exists bb, i. repeat split; auto; lia.
 Qed.
 
 Lemma bvars_incl (e : ex) : forall n x, In x (bvars e n) -> In x (vars e n).
 Proof.
-  induction e as [z|k|o a IHa b IHb|c i0 m|t z0 d0|a IHa b IHb|a IHa|fn a IHa|ia a IHa b IHb]; intros n x H; cbn [vars bvars] in *; auto.
+  induction e as [z|k|o a IHa b IHb|c i0 m|t z0 d0|a IHa b IHb|a IHa|fn a IHa|ia a IHa b IHb|c0 IHc a IHa b IHb]; intros n x H; cbn [vars bvars] in *; auto.
   - apply in_app_or in H as [H|H]; apply in_or_app; [left; apply IHa|right; apply IHb]; exact H.
   - apply in_app_or in H as [H|H]; apply in_or_app; [left; apply IHa|right; apply IHb]; exact H.
   - destruct H as [H|H]; [left; exact H|right; apply in_or_app; left; apply IHa; exact H].
+  - destruct H as [H|H]; [left; exact H|right; apply in_or_app; left; apply IHc; exact H].
 Qed.
 
 Lemma vars_disjoint (a b : ex) (n : nat) (x : string) :
@@ -1030,7 +1053,7 @@ Qed.
 (* the first phase succeeds whenever the ordinary evaluation has a value *)
 Lemma dstm_of_de (ev : event) (e : ex) : forall v, de ev e = ROk v -> dstm ev e = ROk tt.
 Proof.
-  induction e as [z|k|o a IHa b IHb|c i m|t z0 d0|a IHa b IHb|a IHa|fn a IHa|ia a IHa b IHb]; intros v H; cbn [de dstm] in *.
+  induction e as [z|k|o a IHa b IHb|c i m|t z0 d0|a IHa b IHb|a IHa|fn a IHa|ia a IHa b IHb|c0 IHc a IHa b IHb]; intros v H; cbn [de dstm] in *.
   - reflexivity.
   - rewrite H. reflexivity.
   - destruct (de ev a) as [x|f|kk]; cbn [rbind] in H; try discriminate.
@@ -1047,6 +1070,11 @@ Proof.
     destruct (truth (conv "bool" x)) as [t|f|kk]; cbn [rbind] in *; try discriminate.
     destruct (Bool.eqb t ia); [|reflexivity].
     destruct (de ev b) as [y|f|kk]; cbn [rbind] in H; try discriminate. rewrite (IHb y eq_refl). reflexivity.
+  - destruct (de ev c0) as [x|f|kk]; cbn [rbind] in H; try discriminate. rewrite (IHc x eq_refl). cbn [rbind].
+    destruct (truth x) as [t|f|kk]; cbn [rbind] in *; try discriminate.
+    destruct t.
+    + destruct (de ev a) as [y|f|kk]; cbn [rbind] in H; try discriminate. rewrite (IHa y eq_refl). reflexivity.
+    + destruct (de ev b) as [y|f|kk]; cbn [rbind] in H; try discriminate. rewrite (IHb y eq_refl). reflexivity.
 Qed.
 
 (* the two-phase reference and the ordinary evaluation have the same values: they can differ only in WHICH fault an
@@ -1069,12 +1097,14 @@ Fixpoint declared (e : ex) (n : nat) (st : state) : Prop :=
   | EDbl _ _ _ => True | EDiv a b => declared a n st /\ declared b (n + size a) st | ENeg a | EFun _ a => declared a n st
   | EBool _ a b => (exists w, fget (ebo_name n) st = Some ("bool", w)) /\ declared a (S n) st /\
                    (forall x, In x (vars b (S n + size a)) -> fget x st = None)   (* the names of the if block are still free *)
+  | EIf c a b => (exists w, fget (eif_name n) st = Some ("double", w)) /\ declared c (S n) st /\
+                 (forall x, In x (vars a (S n + size c) ++ vars b (S n + size c + size a)) -> fget x st = None)
   end.
 
 Lemma declared_ext (e : ex) : forall n st st',
   (forall x, In x (vars e n) -> fget x st' = fget x st) -> declared e n st -> declared e n st'.
 Proof.
-  induction e as [z|k|o a IHa b IHb|c i m|t z0 d0|a IHa b IHb|a IHa|fn a IHa|ia a IHa b IHb]; intros n st st' H D; cbn [declared vars] in *.
+  induction e as [z|k|o a IHa b IHb|c i m|t z0 d0|a IHa b IHb|a IHa|fn a IHa|ia a IHa b IHb|c0 IHc a IHa b IHb]; intros n st st' H D; cbn [declared vars] in *.
   - exact I.
   - destruct D as [(t & v & D1) D2]. split.
     + exists t, v. rewrite H; [exact D1|left; reflexivity].
@@ -1093,6 +1123,10 @@ Proof.
     + exists w. rewrite H; [exact Dv|left; reflexivity].
     + eapply IHa; [|exact Da]. intros x Hx. apply H. right. apply in_or_app. left; exact Hx.
     + intros x Hx. rewrite H; [apply Df, Hx|]. right. apply in_or_app. right; exact Hx.
+  - destruct D as ((w & Dv) & Dc & Df). split; [|split].
+    + exists w. rewrite H; [exact Dv|left; reflexivity].
+    + eapply IHc; [|exact Dc]. intros x Hx. apply H. right. apply in_or_app. left; exact Hx.
+    + intros x Hx. rewrite H; [apply Df, Hx|]. right. apply in_or_app. right; exact Hx.
 Qed.
 
 (* the value expression only reads the accumulators of the expression *)
@@ -1102,7 +1136,7 @@ Definition bound (e : ex) (n : nat) (st : state) : Prop :=
 Lemma tc_ext (ev : event) (e : ex) : forall n s1 s2,
   bound e n s1 -> (forall x, In x (vars e n) -> fget x s2 = fget x s1) -> eval ev s2 (tc e n) = eval ev s1 (tc e n).
 Proof.
-  induction e as [z|k|o a IHa b IHb|c i m|t z0 d0|a IHa b IHb|a IHa|fn a IHa|ia a IHa b IHb]; intros n s1 s2 D H; unfold bound in *; cbn [tc vars bvars] in *.
+  induction e as [z|k|o a IHa b IHb|c i m|t z0 d0|a IHa b IHb|a IHa|fn a IHa|ia a IHa b IHb|c0 IHc a IHa b IHb]; intros n s1 s2 D H; unfold bound in *; cbn [tc vars bvars] in *.
   - reflexivity.
   - destruct (D (kagg k n)) as [tv E1]; [right; left; reflexivity|].
     assert (E2 : fget (kagg k n) s2 = Some tv) by (rewrite H; [exact E1|right; left; reflexivity]).
@@ -1131,6 +1165,9 @@ Proof.
   - cbn [eval eval_args]. rewrite (IHa n s1 s2 D H). reflexivity.
   - destruct (D (ebo_name n)) as [tv E1]; [left; reflexivity|].
     assert (E2 : fget (ebo_name n) s2 = Some tv) by (rewrite H; [exact E1|left; reflexivity]).
+    rewrite !eval_var, (lookup_fget _ _ _ E1), (lookup_fget _ _ _ E2). reflexivity.
+  - destruct (D (eif_name n)) as [tv E1]; [left; reflexivity|].
+    assert (E2 : fget (eif_name n) s2 = Some tv) by (rewrite H; [exact E1|left; reflexivity]).
     rewrite !eval_var, (lookup_fget _ _ _ E1), (lookup_fget _ _ _ E2). reflexivity.
 Qed.
 
@@ -1177,12 +1214,13 @@ Qed.
 
 Lemma tds_names (e : ex) : forall n, map d_name (tds e n) = bvars e n.
 Proof.
-  induction e as [z|k|o a IHa b IHb|c i m|t z0 d0|a IHa b IHb|a IHa|fn a IHa|ia a IHa b IHb]; intro n; cbn [tds bvars map d_name]; try reflexivity.
+  induction e as [z|k|o a IHa b IHb|c i m|t z0 d0|a IHa b IHb|a IHa|fn a IHa|ia a IHa b IHb|c0 IHc a IHa b IHb]; intro n; cbn [tds bvars map d_name]; try reflexivity.
   - rewrite map_app, IHa, IHb. reflexivity.
   - rewrite map_app, IHa, IHb. reflexivity.
   - apply IHa.
   - apply IHa.
   - rewrite IHa. reflexivity.
+  - rewrite IHc. reflexivity.
 Qed.
 
 Lemma shape_top (s1 s2 : state) : shape s1 = shape s2 -> fnames (hd [] (frames s1)) = fnames (hd [] (frames s2)).
@@ -1247,7 +1285,36 @@ Lemma decls_declared (ev : event) (e : ex) : forall (n : nat) (st : state),
               members st' = members st /\ rows st' = rows st /\
               (forall y, ~ In y (vars e n) -> fget y st' = fget y st).
 Proof.
-  induction e as [z|k|o a IHa b IHb|c i m|t z0 d0|a IHa b IHb|a IHa|fn a IHa|ia a IHa b IHb]; intros n st Hb Hf; cbn [tds vars declared bases_ok] in *.
+  induction e as [z|k|o a IHa b IHb|c i m|t z0 d0|a IHa b IHb|a IHa|fn a IHa|ia a IHa b IHb|c0 IHc a IHa b IHb]; intros n st Hb Hf; cbn [tds vars declared bases_ok] in *.
+  10: { apply andb_prop in Hb as [Hb Hb3]. apply andb_prop in Hb as [Hb1 Hb2].
+       set (v := eif_name n) in *. set (n1 := S n + size c0) in *. set (n2 := n1 + size a) in *.
+       assert (Nv : forall (e : ex) (m : nat), bases_ok e = true -> S n <= m -> ~ In v (vars e m)).
+       { intros e m He Hm H. destruct (vars_shape e m v He H) as (bb & i & E & L & F & R).
+         unfold v, eif_name in E. apply (nm_inj "if_else_result" bb n i eq_refl L) in E. lia. }
+       assert (Nne : forall y, y <> v -> String.eqb y v = false).
+       { intros y Hy. destruct (String.eqb y v) eqn:E; [apply String.eqb_eq in E; contradiction|reflexivity]. }
+       cbn [run_decls ie_decl d_init d_name d_type].
+       destruct (declare_spec v "double" (default_value "double") st) as (G0 & O0 & M0 & R0); [apply Hf; left; reflexivity|].
+       set (st0 := declare v "double" (default_value "double") st) in *.
+       destruct (IHc (S n) st0 Hb1) as (st1 & E1 & D1 & M1 & R1 & U1).
+       { intros x Hx. rewrite (O0 x (Nne x (fun E => Nv c0 (S n) Hb1 (le_n _) (eq_ind x (fun z => In z (vars c0 (S n))) Hx v E)))).
+         apply Hf. right. apply in_or_app. left; exact Hx. }
+       exists st1. split; [exact E1|]. split; [split; [|split]|].
+       + exists (default_value "double"). rewrite (U1 v (Nv c0 (S n) Hb1 (le_n _))). exact G0.
+       + exact D1.
+       + intros x Hx.
+         assert (Xc : ~ In x (vars c0 (S n))).
+         { intro Hxc. apply in_app_or in Hx as [Hx|Hx].
+           - exact (vars_disjoint c0 a (S n) x Hb1 Hb2 Hxc Hx).
+           - destruct (vars_shape c0 (S n) x Hb1 Hxc) as (b1 & i & E1' & L1 & _ & R1').
+             destruct (vars_shape b n2 x Hb3 Hx) as (b2 & j & E2' & L2 & _ & R2').
+             subst x. apply (nm_inj b1 b2 i j L1 L2) in E2'. unfold n2, n1 in R2'. lia. }
+         assert (Xv : x <> v).
+         { intro E. subst x. apply in_app_or in Hx as [Hx|Hx]; [exact (Nv a n1 Hb2 ltac:(unfold n1; lia) Hx)|exact (Nv b n2 Hb3 ltac:(unfold n2, n1; lia) Hx)]. }
+         rewrite (U1 x Xc), (O0 x (Nne x Xv)). apply Hf. right. apply in_or_app. right; exact Hx.
+       + split; [congruence|]. split; [congruence|]. intros y Hy.
+         assert (Yv : y <> v) by (intro E; apply Hy; left; symmetry; exact E).
+         rewrite U1; [apply (O0 y (Nne y Yv))|]. intro H. apply Hy. right. apply in_or_app. left; exact H. }
   9: { apply andb_prop in Hb as [Hba Hbb]. set (v := ebo_name n) in *. set (n1 := S n + size a) in *.
        assert (Nva : ~ In v (vars a (S n))).
        { intro H. destruct (vars_shape a (S n) v Hba H) as (bb & i & E & L & F & R).
@@ -1328,6 +1395,63 @@ Proof.
     + split; [congruence|]. split; [congruence|]. intros y Hy. rewrite U2, U1; [reflexivity| |]; intro H; apply Hy, in_or_app; auto.
 Qed.
 
+(* one arm of a conditional (or the second operand of and / or): its declarations, its code and the assignment of its
+   value to a variable of the enclosing block, all inside a block of their own *)
+Lemma arm_exec (brs : list branch) (ev : event) (idiom : string) (b : ex) (n1 : nat) (v ty : string) (cast : option string)
+      (w : value) (st2 : state) :
+  (forall st, declared b n1 st ->
+     match dstm ev b with
+     | ROk _ => exists st', exec_stmts brs ev (tss idiom b n1) st = ROk st' /\ members st' = members st /\ rows st' = rows st /\
+                            (forall y, ~ In y (vars b n1) -> fget y st' = fget y st) /\ bound b n1 st' /\
+                            (nstuck (de ev b) -> eval ev st' (tc b n1) = de ev b)
+     | RFault f => exec_stmts brs ev (tss idiom b n1) st = RFault f
+     | RStuck _ => True
+     end) ->
+  bases_ok b = true -> ~ In v (vars b n1) -> fget v st2 = Some (ty, w) -> (forall x, In x (vars b n1) -> fget x st2 = None) ->
+  let blk := Blk (tds b n1) (snoc_stmts (tss idiom b n1) (SSet v cast (tc b n1))) in
+  match dstm ev b with
+  | ROk _ =>
+      match de ev b with
+      | ROk y => exists st6, exec_block brs ev blk [] st2 = ROk st6 /\ members st6 = members st2 /\ rows st6 = rows st2 /\
+                             (forall z, ~ In z (vars b n1) -> z <> v -> fget z st6 = fget z st2) /\
+                             fget v st6 = Some (ty, conv ty (match cast with Some ct => conv ct y | None => y end))
+      | RFault f => exec_block brs ev blk [] st2 = RFault f
+      | RStuck _ => True
+      end
+  | RFault f => exec_block brs ev blk [] st2 = RFault f
+  | RStuck _ => True
+  end.
+Proof.
+  intros IHb Hbb Nvb Gv Fresh blk. unfold blk. rewrite exec_block_eq.
+  assert (Nne : forall y, y <> v -> String.eqb y v = false).
+  { intros y Hy. destruct (String.eqb y v) eqn:E; [apply String.eqb_eq in E; contradiction|reflexivity]. }
+  destruct (decls_declared ev b n1 (enter [] st2) Hbb) as (st3 & E3 & D3 & M3 & R3 & U3).
+  { intros y Hy. rewrite fget_enter by reflexivity. apply Fresh, Hy. }
+  rewrite E3. cbn [rbind]. rewrite exec_snoc.
+  specialize (IHb st3 D3).
+  destruct (dstm ev b) as [[]|f|kk]; cbn [rbind]; [|rewrite IHb; reflexivity|exact I].
+  destruct IHb as (st4 & E4 & M4 & R4 & U4 & B4 & V4). rewrite E4. cbn [rbind]. rewrite exec_set.
+  destruct (de ev b) as [y|f|kk] eqn:Edb; cbn [rbind]; [|rewrite (V4 I); reflexivity|exact I].
+  rewrite (V4 I). cbn [rbind].
+  assert (Dv4 : fget v st4 = Some (ty, w)).
+  { rewrite (U4 v Nvb), (U3 v Nvb), fget_enter by reflexivity. exact Gv. }
+  set (val := conv ty (match cast with Some ct => conv ct y | None => y end)).
+  destruct (assign_upd v val st4 ty w Dv4) as (Ha5 & Hlk5 & G5 & O5 & M5 & R5).
+  rewrite Hlk5. cbv zeta. fold val. rewrite Ha5. cbn [rbind].
+  set (st5 := upd v val st4) in *.
+  assert (Top5 : fnames (hd [] (frames st5)) = bvars b n1).
+  { rewrite (shape_top st5 st4 (assign_shape _ _ _ _ Ha5)).
+    rewrite (shape_top st4 st3 (proj2 (proj2 (exec_shape brs ev)) _ _ _ E4)).
+    rewrite (run_decls_top ev (tds b n1) (enter [] st2) st3 ltac:(discriminate) E3). cbn [enter frames hd fnames map app]. apply tds_names. }
+  assert (Pop : forall z, ~ In z (vars b n1) -> fget z (pop_frame st5) = fget z st5).
+  { intros z Hz. apply fget_pop, frame_get_notin. rewrite Top5. intro Hb'. apply Hz, bvars_incl, Hb'. }
+  exists (pop_frame st5). split; [reflexivity|]. split; [|split; [|split]].
+  - cbn [pop_frame members]. rewrite M5, M4, M3. reflexivity.
+  - cbn [pop_frame rows]. rewrite R5, R4, R3. reflexivity.
+  - intros z Hz Hzv. rewrite (Pop z Hz), (O5 z (Nne z Hzv)), (U4 z Hz), (U3 z Hz), fget_enter by reflexivity. reflexivity.
+  - rewrite (Pop v Nvb). exact G5.
+Qed.
+
 Lemma te_exec (brs : list branch) (ev : event) (idiom : string) (e : ex) : forall (n : nat) (st : state),
   bases_ok e = true -> declared e n st ->
   match dstm ev e with
@@ -1340,7 +1464,7 @@ Lemma te_exec (brs : list branch) (ev : event) (idiom : string) (e : ex) : foral
   | RStuck _ => True
   end.
 Proof.
-  induction e as [z|k|o a IHa b IHb|c i m|t z0 d0|a IHa b IHb|a IHa|fn a IHa|ia a IHa b IHb]; intros n st Hb D; cbn [dstm tss tc vars bvars de declared bases_ok] in *.
+  induction e as [z|k|o a IHa b IHb|c i m|t z0 d0|a IHa b IHb|a IHa|fn a IHa|ia a IHa b IHb|c0 IHc a IHa b IHb]; intros n st Hb D; cbn [dstm tss tc vars bvars de declared bases_ok] in *.
   - exists st. repeat split; auto. intros x [].
   - destruct D as [(tcv & v0 & Dcv) Dagg].
     unfold base_ok in Hb. apply andb_prop in Hb as [Hl _]. apply negb_true_iff in Hl.
@@ -1525,6 +1649,67 @@ Proof.
         assert (Zv : z <> v) by (intro E; subst z; exact (Nva Hza)).
         rewrite (O2 z (Nne z Zv)). apply B1, Hz.
       * intros _. rewrite eval_var, (lookup_fget _ _ _ G2'), Ec. reflexivity.
+  - (* EIf: the test in the current block, each arm inside its own branch *)
+    apply andb_prop in Hb as [Hb Hb3]. apply andb_prop in Hb as [Hb1 Hb2]. destruct D as ((w & Dv) & Dc & Df).
+    set (v := eif_name n) in *. set (n1 := S n + size c0) in *. set (n2 := n1 + size a) in *.
+    assert (Nv : forall (e : ex) (m : nat), bases_ok e = true -> S n <= m -> ~ In v (vars e m)).
+    { intros e m He Hm H. destruct (vars_shape e m v He H) as (bb & i & E & L & F & R).
+      unfold v, eif_name in E. apply (nm_inj "if_else_result" bb n i eq_refl L) in E. lia. }
+    assert (Ncb : forall x, In x (vars c0 (S n)) -> In x (vars b n2) -> False).
+    { intros x Hxc Hxb. destruct (vars_shape c0 (S n) x Hb1 Hxc) as (b1 & i & E1' & L1 & _ & R1').
+      destruct (vars_shape b n2 x Hb3 Hxb) as (b2 & j & E2' & L2 & _ & R2').
+      subst x. apply (nm_inj b1 b2 i j L1 L2) in E2'. unfold n2, n1 in R2'. lia. }
+    assert (Nab : forall x, In x (vars a n1) -> In x (vars b n2) -> False) by (intros x; apply (vars_disjoint a b n1 x Hb2 Hb3)).
+    assert (Nca : forall x, In x (vars c0 (S n)) -> In x (vars a n1) -> False) by (intros x; apply (vars_disjoint c0 a (S n) x Hb1 Hb2)).
+    rewrite exec_snoc.
+    specialize (IHc (S n) st Hb1 Dc).
+    destruct (dstm ev c0) as [[]|f|kk]; cbn [rbind]; [|rewrite IHc; reflexivity|exact I].
+    destruct IHc as (st1 & E1 & M1 & R1 & U1 & B1 & V1). rewrite E1. cbn [rbind]. rewrite exec_if.
+    destruct (de ev c0) as [x|f|kk] eqn:Edc; cbn [rbind]; [|rewrite (V1 I); reflexivity|exact I].
+    rewrite (V1 I). cbn [rbind].
+    assert (Dv1 : fget v st1 = Some ("double", w)) by (rewrite (U1 v (Nv c0 (S n) Hb1 (le_n _))); exact Dv).
+    destruct (truth x) as [t|f|kk]; cbn [rbind]; [|reflexivity|exact I].
+    destruct t.
+    + assert (Fresh : forall z, In z (vars a n1) -> fget z st1 = None).
+      { intros z Hz. rewrite (U1 z (fun H => Nca z H Hz)). apply Df, in_or_app. left; exact Hz. }
+      pose proof (arm_exec brs ev idiom a n1 v "double" (arm_cast a) w st1 (fun s0 D0 => IHa n1 s0 Hb2 D0) Hb2
+                           (Nv a n1 Hb2 ltac:(unfold n1; lia)) Dv1 Fresh) as A. cbv zeta in A.
+      destruct (dstm ev a) as [[]|f|kk]; cbn [rbind]; [|exact A|exact I].
+      destruct (de ev a) as [y|f|kk] eqn:Eda; cbn [rbind]; [|exact A|exact I].
+      destruct A as (st6 & E6 & M6 & R6 & O6 & G6).
+      exists st6. split; [exact E6|]. split; [congruence|]. split; [congruence|]. split; [|split].
+      * intros z Hz.
+        assert (Zv : z <> v) by (intro E; apply Hz; left; symmetry; exact E).
+        assert (Zc : ~ In z (vars c0 (S n))) by (intro H; apply Hz; right; apply in_or_app; left; exact H).
+        assert (Za : ~ In z (vars a n1)) by (intro H; apply Hz; right; apply in_or_app; right; apply in_or_app; left; exact H).
+        rewrite (O6 z Za Zv). apply (U1 z Zc).
+      * intros z [E|Hz]; [rewrite <- E; fold v; rewrite G6; eauto|].
+        pose proof (bvars_incl c0 (S n) z Hz) as Hzc.
+        rewrite (O6 z (fun H => Nca z Hzc H) (fun E => Nv c0 (S n) Hb1 (le_n _) (eq_ind z (fun u => In u (vars c0 (S n))) Hzc v E))).
+        apply B1, Hz.
+      * intro Hn. rewrite eval_var, (lookup_fget _ _ _ G6). unfold arm_cast.
+        destruct (String.eqb (ex_type a) "double"); rewrite ?conv_double_idem; unfold rdv in *;
+          destruct (conv "double" y); try reflexivity; destruct Hn.
+    + assert (Fresh : forall z, In z (vars b n2) -> fget z st1 = None).
+      { intros z Hz. rewrite (U1 z (fun H => Ncb z H Hz)). apply Df, in_or_app. right; exact Hz. }
+      pose proof (arm_exec brs ev idiom b n2 v "double" (arm_cast b) w st1 (fun s0 D0 => IHb n2 s0 Hb3 D0) Hb3
+                           (Nv b n2 Hb3 ltac:(unfold n2, n1; lia)) Dv1 Fresh) as A. cbv zeta in A.
+      destruct (dstm ev b) as [[]|f|kk]; cbn [rbind]; [|exact A|exact I].
+      destruct (de ev b) as [y|f|kk] eqn:Edb; cbn [rbind]; [|exact A|exact I].
+      destruct A as (st6 & E6 & M6 & R6 & O6 & G6).
+      exists st6. split; [exact E6|]. split; [congruence|]. split; [congruence|]. split; [|split].
+      * intros z Hz.
+        assert (Zv : z <> v) by (intro E; apply Hz; left; symmetry; exact E).
+        assert (Zc : ~ In z (vars c0 (S n))) by (intro H; apply Hz; right; apply in_or_app; left; exact H).
+        assert (Zb : ~ In z (vars b n2)) by (intro H; apply Hz; right; apply in_or_app; right; apply in_or_app; right; exact H).
+        rewrite (O6 z Zb Zv). apply (U1 z Zc).
+      * intros z [E|Hz]; [rewrite <- E; fold v; rewrite G6; eauto|].
+        pose proof (bvars_incl c0 (S n) z Hz) as Hzc.
+        rewrite (O6 z (fun H => Ncb z Hzc H) (fun E => Nv c0 (S n) Hb1 (le_n _) (eq_ind z (fun u => In u (vars c0 (S n))) Hzc v E))).
+        apply B1, Hz.
+      * intro Hn. rewrite eval_var, (lookup_fget _ _ _ G6). unfold arm_cast.
+        destruct (String.eqb (ex_type b) "double"); rewrite ?conv_double_idem; unfold rdv in *;
+          destruct (conv "double" y); try reflexivity; destruct Hn.
 Qed.
 
 (* ---------- the whole program ---------- *)
@@ -2546,6 +2731,16 @@ Lemma ebool_second (ev : event) (is_and : bool) (a b : ex) (x y : value) (t u : 
 Proof.
   intros Ha Ht Hd Hb Hu. unfold dex. cbn [dstm de]. rewrite (dstm_of_de ev a x Ha), Ha. cbn [rbind]. rewrite Ht. cbn [rbind].
   rewrite Hd, (dstm_of_de ev b y Hb), Hb. cbn [rbind]. rewrite (truth_conv_bool y u Hu). reflexivity.
+Qed.
+
+(* a conditional at event level evaluates the taken arm only - the other arm's retrievals, loops and at() are not run,
+   whatever they would do *)
+Lemma eif_lazy (ev : event) (c a b : ex) (x y : value) (t : bool) :
+  de ev c = ROk x -> truth x = ROk t -> de ev (if t then a else b) = ROk y ->
+  dex ev (EIf c a b) = rdv (conv "double" y).
+Proof.
+  intros Hc Ht Hy. unfold dex. cbn [dstm de]. rewrite (dstm_of_de ev c x Hc), Hc. cbn [rbind]. rewrite Ht. cbn [rbind].
+  destruct t; rewrite (dstm_of_de ev _ y Hy), Hy; reflexivity.
 Qed.
 
 (* the two-phase row and the ordinary column-after-column evaluation give the same rows: they can differ only in WHICH
